@@ -737,7 +737,14 @@ func c09Exec(t *testing.T, rng *vrng, transport string, plan []string) (c09In, c
 			var ges [2]*c09Ext
 			for k := range ges {
 				in.Steps = append(in.Steps, c09Step{T: "watch", Nonce: h.nonces[tx], Tx: tx})
-				ges[k] = &c09Ext{id: nextID, tx: tx, done: make(chan string, 1), stop: func() {}}
+				ge := &c09Ext{id: nextID, tx: tx, done: make(chan string, 1)}
+				ge.stop = func() { // never delivered (e.g. no round was realised): the waiter simply has no outcome
+					select {
+					case ge.done <- "none":
+					default:
+					}
+				}
+				ges[k] = ge
 				nextID++
 				exts = append(exts, ges[k])
 			}
